@@ -15,6 +15,12 @@ for _p in ("C08", "C09"):
                           "inside the range of the issued ones and right after it; directed sweep: every arrangement of 2-4 distinct numbers "
                           "out of six put with explicit IDs, then every number of the range presented")
 
+# round 7: long backlogs
+for _p in ("C09", "C18"):
+    PROPS[_p]["rule"] += ("; directed long backlogs: a burst of 300 / 1000 (thorough: 2000) events, a pause longer than the TTL, then one Put whose "
+                          "collection is due (all expired, or all but five) or an explicit GC(), then resumptions and Puts while the ring "
+                          "shrinks; all of them also in the finalizer family")
+
 # round 7: accepted and rejected Puts interleaved on one replayer (heap family)
 PROPS["C19"]["rule"] += ("; accepted and rejected Puts through one replayer in every order up to length 5 (a message without ID, a clone with an "
                          "explicit ID, the copy the last accepted Put returned), all four replayers; the random sequences follow which members "
